@@ -29,6 +29,7 @@ structure St where
   inHist : Bool := false
   lastAllNoop : Bool := false    -- the last plan of the history consisted of no-op singletons only
   diverged : Bool := false       -- model and implementation disagreed earlier in this history: the states differ
+  writer : Bool := false         -- the history runs with the options a writer really uses (`case hw…`)
 
 def parseOpts (ws : List String) : Option (Options × FOptions) :=
   match ws with
@@ -110,8 +111,57 @@ structure PlanOut where
   tasks : List (List Seg)     -- the model's tasks (for the history state)
   allNoop : Bool := false     -- the IMPLEMENTATION's plan consists of no-op singletons only
 
+/-- the exact value of a `float64 ≥ 1` as a fraction `num/den` in lowest terms (`den` a power of two), when both
+are below 2^20 (the harness decomposes the bit pattern the same way) -/
+def growthFraction (bits : UInt64) : Option (Nat × Nat) :=
+  let b := bits.toNat
+  let e := (b >>> 52) &&& 0x7ff
+  let m := (b &&& (2 ^ 52 - 1)) ||| 2 ^ 52
+  if b >>> 63 == 1 || e == 0 || e == 0x7ff then none else
+  -- value = m · 2^(e - 1075)
+  let rec strip (fuel m sh : Nat) : Nat × Nat :=      -- sh = 1075 - e while positive
+    match fuel with
+    | 0 => (m, sh)
+    | fuel + 1 => if sh > 0 && m % 2 == 0 then strip fuel (m / 2) (sh - 1) else (m, sh)
+  let (num, den) :=
+    if e ≥ 1075 then (m * 2 ^ (e - 1075), 1)
+    else let (m', sh) := strip 64 m (1075 - e); (m', 2 ^ sh)
+  if num < 2 ^ 20 && den < 2 ^ 20 && num ≥ den then some (num, den) else none
+
+/-- verdict of a `budget` line: the logarithmic bound (or, when the truncation eats the growth step, the
+linear lower bound) evaluated on the IMPLEMENTATION's number `ib` -/
+def budgetVerdict (ib : Int) (per num den first total : Nat) : String :=
+  if first * num / den == first then
+    -- budget_linear_when_tier_stuck: total ≤ first · budget
+    if (total : Int) ≤ first * ib then "ok br=budget-tier-stuck" else "bad:budget-below-linear-bound"
+  else
+    -- h = g − 1/first, as the fraction (num·first − den)/(den·first)
+    let hn := num * first - den
+    let hd := den * first
+    if growthAtLeast num den hn hd first && hn > hd then
+      match tiersNeededRat per hn hd first total 200 0 with
+      | some k => if ib ≤ per * (k + 1) then "ok br=budget-log-bound-rat" else "bad:budget-not-logarithmic"
+      | none => "ok br=budget-rat-many-tiers"
+    else "ok br=budget-rat-growth-not-established"
+
+/-- the staircase of a writer's own options must be logarithmic: the budget the planner computed obeys
+`budget_logarithmic_rat` for its growth factor (clamped to ≥ 1 as `CalcBudget` does); a tier that does not grow
+(`budget_linear_when_tier_stuck`) or a growth whose rate cannot be established is a violation here -/
+def writerBudgetVerdict (o : Options) (fo : FOptions) (ib total first : Int) : Option String :=
+  let g : Float := if fo.tierGrowth < 1 then 1 else fo.tierGrowth
+  let perN := (if o.maxSegmentsPerTier < 1 then 1 else o.maxSegmentsPerTier).toNat
+  let firstN := (if first < 1 then 1 else first).toNat
+  if total ≤ 0 then none else
+  match growthFraction g.toBits with
+  | none => some "bad:writer-budget-growth-not-exact"
+  | some (num, den) =>
+    let v := budgetVerdict ib perN num den firstN total.toNat
+    if v.startsWith "ok br=budget-log-bound-rat" || v.startsWith "ok br=budget-rat-many-tiers" then none
+    else some "bad:writer-budget-not-logarithmic"
+
 /-- one planner call: model result, oracle verdict on the implementation's tasks, branches -/
-def doPlan (o : Options) (fo : FOptions) (segs : List Seg) (scoresStr implLine : String) (real : Bool := false) : PlanOut :=
+def doPlan (o : Options) (fo : FOptions) (segs : List Seg) (scoresStr implLine : String) (real : Bool := false)
+    (writer : Bool := false) : PlanOut :=
   let impl := match implLine.splitOn " after " with | a :: _ => a | [] => implLine
   let cb := calcBudgetF o fo
   let sf := scoreSegmentsF o fo
@@ -159,6 +209,8 @@ def doPlan (o : Options) (fo : FOptions) (segs : List Seg) (scoresStr implLine :
         (if ts.any (fun t => t.length == 1) then ["singleton-task"] else []) ++
         (if ts.any (fun t => liveSum t == o.maxSegmentSize - 1) then ["sum-just-below-max"] else []) ++
         (if o.segmentsPerMergeTask ≥ 2 && ts.any isNoopSingleton then ["noop-singleton-task"] else []))
+    ++ (if writer && p.eligiblesLive ≥ (if o.maxSegmentsPerTier < 1 then 1 else o.maxSegmentsPerTier) * p.minLive
+          then ["writer-default-options-beyond-first-tier"] else [])
     ++ (if real then ["real-planner-input"] ++ (if segs.any (fun s => s.liveSize < s.fullSize) then ["real-input-with-deletions"] else []) else [])
     ++ (if useGo then ["go-scores"] else (if mtasks.length > (if p.empties.length > 0 then 1 else 0) then ["model-float-scores"] else []))
     ++ floatSame
@@ -195,6 +247,9 @@ def doPlan (o : Options) (fo : FOptions) (segs : List Seg) (scoresStr implLine :
             let b := (implBudget impl).getD p.budget
             -- (theorem quiescent_within_budget; with the repaired roster guard a lone eligible segment, or
             -- SegmentsPerMergeTask = 1, also end the planning)
+            let wv : Option String :=
+              if writer then writerBudgetVerdict o fo ((implBudget impl).getD p.budget) p.eligiblesLive p.minLive else none
+            if let some w := wv then w else
             let lone := o.skipNoop && ((eligibles o segs).length == 1 || o.segmentsPerMergeTask == 1)
             if its.isEmpty && ((eligibles o segs).length : Int) > b && !lone then "bad:quiescent-over-budget"
             -- a merge of one deletion-free segment into itself can never make progress
@@ -206,23 +261,6 @@ def doPlan (o : Options) (fo : FOptions) (segs : List Seg) (scoresStr implLine :
 
 def sums (segs : List Seg) : String := s!"n={segs.length} full={fullSum segs} live={liveSum segs}"
 
-/-- the exact value of a `float64 ≥ 1` as a fraction `num/den` in lowest terms (`den` a power of two), when both
-are below 2^20 (the harness decomposes the bit pattern the same way) -/
-def growthFraction (bits : UInt64) : Option (Nat × Nat) :=
-  let b := bits.toNat
-  let e := (b >>> 52) &&& 0x7ff
-  let m := (b &&& (2 ^ 52 - 1)) ||| 2 ^ 52
-  if b >>> 63 == 1 || e == 0 || e == 0x7ff then none else
-  -- value = m · 2^(e - 1075)
-  let rec strip (fuel m sh : Nat) : Nat × Nat :=      -- sh = 1075 - e while positive
-    match fuel with
-    | 0 => (m, sh)
-    | fuel + 1 => if sh > 0 && m % 2 == 0 then strip fuel (m / 2) (sh - 1) else (m, sh)
-  let (num, den) :=
-    if e ≥ 1075 then (m * 2 ^ (e - 1075), 1)
-    else let (m', sh) := strip 64 m (1075 - e); (m', 2 ^ sh)
-  if num < 2 ^ 20 && den < 2 ^ 20 && num ≥ den then some (num, den) else none
-
 def showScoreTable (t : List (List Int × Nat)) : String :=
   " ".intercalate (t.map fun e => ".".intercalate (e.1.map toString) ++ "=" ++ toHex 16 e.2)
 
@@ -233,26 +271,10 @@ def planLine (st : St) (op impl : String) (kind : String) : St × String :=
   | [os, ss, sc] =>
     match parseOpts (os.splitOn " "), parseSegs ss with
     | some (o, fo), some segs =>
-      let r := doPlan o fo segs sc impl (kind == "rplan")
+      let r := doPlan o fo segs sc impl (kind == "rplan") (kind == "wplan")
       (st, r.result ++ sep ++ r.verdict)
     | _, _ => (st, "bad-op" ++ sep ++ "na")
   | _ => (st, "bad-op" ++ sep ++ "na")
-
-/-- verdict of a `budget` line: the logarithmic bound (or, when the truncation eats the growth step, the
-linear lower bound) evaluated on the IMPLEMENTATION's number `ib` -/
-def budgetVerdict (ib : Int) (per num den first total : Nat) : String :=
-  if first * num / den == first then
-    -- budget_linear_when_tier_stuck: total ≤ first · budget
-    if (total : Int) ≤ first * ib then "ok br=budget-tier-stuck" else "bad:budget-below-linear-bound"
-  else
-    -- h = g − 1/first, as the fraction (num·first − den)/(den·first)
-    let hn := num * first - den
-    let hd := den * first
-    if growthAtLeast num den hn hd first && hn > hd then
-      match tiersNeededRat per hn hd first total 200 0 with
-      | some k => if ib ≤ per * (k + 1) then "ok br=budget-log-bound-rat" else "bad:budget-not-logarithmic"
-      | none => "ok br=budget-rat-many-tiers"
-    else "ok br=budget-rat-growth-not-established"
 
 def c19step (st : St) (op : String) (impl : String) : St × String :=
   let ws := op.splitOn " "
@@ -260,19 +282,28 @@ def c19step (st : St) (op : String) (impl : String) : St × String :=
   | "case" :: name :: rest =>
     if name.startsWith "h" then
       match parseOpts rest with
-      | some (o, fo) => ({ o := o, fo := fo, segs := [], inHist := true },
+      | some (o, fo) => ({ o := o, fo := fo, segs := [], inHist := true, writer := name.startsWith "hw" },
           "case" ++ sep ++ (if histOptionsSane o then "na br=hist-options-sane" else "na br=hist-options-not-sane"))
       | none => (st, "bad-op" ++ sep ++ "na")
     else ({}, "case" ++ sep ++ "na")
   | "witness" :: _ => (st, showScoreTable livelockScores ++ sep ++ "ok br=witness-scores")
   | "plan" :: _ => planLine st op impl "plan"
   | "rplan" :: _ => planLine st op impl "rplan"
+  | "wplan" :: _ => planLine st op impl "wplan"
+  | "defaults" :: _ =>
+    -- every constructor of the index package hands the writer `mergeplan.DefaultMergePlanOptions` (the model's
+    -- `defaultOptions` with TierGrowth 10.0 and ReclaimDeletesWeight 2.0)
+    let d := defaultOptions
+    let one := s!"{d.maxSegmentsPerTier},{d.maxSegmentSize},{d.segmentsPerMergeTask},{d.floorSegmentSize}," ++
+      toHex 16 (10.0 : Float).toBits.toNat ++ "," ++ toHex 16 (2.0 : Float).toBits.toNat
+    let want := " ".intercalate (["fs", "mem", "dir", "mergeplan"].map fun k => k ++ "=" ++ one)
+    (st, want ++ sep ++ (if impl == want then "ok br=writer-options-are-the-defaults" else "bad:writer-options-differ-from-defaults"))
   | "real" :: _ => (st, "ok" ++ sep ++ "na br=real-writer-ran")   -- the real writer opened, took its batches and closed
   | "hplan" :: nx :: "|" :: _ =>
     match nx.toNat? with
     | some next =>
       let sc := match op.splitOn " | " with | [_, s] => s | _ => "-"
-      let r := doPlan st.o st.fo st.segs sc impl
+      let r := doPlan st.o st.fo st.segs sc impl false st.writer
       let segs' := executeAll next st.segs r.tasks
       let res := r.result ++ " after " ++ sums segs'
       -- the oracle is evaluated on the implementation's tasks against the MODEL's state: once the two have
